@@ -276,6 +276,21 @@ Proof.
   all: try (rewrite valid_text_upper; apply valid_trim; assumption).
 Qed.
 
+(* the empty id, which set_id refuses, does not get into an atom through any setter either (an all-blank text is stored
+   trimmed: it is refused as well) *)
+Theorem C10_atom_setter_keeps_id_nonempty : forall a f v, a_id a <> [] -> a_id (fst (upd_atom a f v)) <> [].
+Proof.
+  intros a f v Hv. unfold upd_atom.
+  destruct (String.eqb f f_pos).
+  { unfold upd_atom_pos. destruct v as [| | |[|vx [|vy [|vz [|]]]]]; simpl; try exact Hv.
+    destruct (finite (fval_of_sx vx) && finite (fval_of_sx vy) && finite (fval_of_sx vz))%bool; simpl; exact Hv. }
+  destruct (String.eqb f f_atf); [exact Hv|].
+  destruct (afield_of f) as [fd|]; [|exact Hv].
+  destruct fd; simpl; try exact Hv;
+  try (match goal with |- context [if ?b then _ else _] => destruct b eqn:E end; simpl; try exact Hv).
+  apply andb_prop in E as [_ E]. destruct (trim (get_text v)); [discriminate E|discriminate].
+Qed.
+
 Print Assumptions C10_remove_atoms_by.
 Print Assumptions C10_remove_conformers_by.
 Print Assumptions C10_remove_residues_by.
@@ -292,3 +307,4 @@ Print Assumptions C10_join_atoms.
 Print Assumptions C10_pdb_join_atoms.
 Print Assumptions C10_atom_setter_rejects.
 Print Assumptions C10_atom_setter_keeps_valid.
+Print Assumptions C10_atom_setter_keeps_id_nonempty.
